@@ -1,4 +1,6 @@
 """C02 — UDP relay preserves each datagram, its addresses and its owner: routing/ownership clauses (DESIGN.md 4/C02)."""
+import re
+
 from ..mir import Callee, last_seg, loc, op_place
 from .common import gates_of_value
 
@@ -84,25 +86,40 @@ def run(ctx):
              and any(c.name == "UdpSocket::send_to" for (_, c, _) in b.calls())]
     ctx.floor("U3", "server association task", 1, len(assoc))
     for b in assoc:
-        # reply tuple sent on the inbound channel: (content, peer_addr, self.client_addr, session)
+        # the reply message sent on the inbound channel (a tuple or a named struct): among its parts there is the client's socket
+        # address and a session value. The address must come from the association's own state (recorded at creation), the session's ids /
+        # user from the association's own state as well — by role (types and provenance), not by field names.
         for (blk, c, t) in b.calls():
             if c.method == "send" and "Sender" in c.self_s:
                 p = op_place(t["args"][1]) if len(t["args"]) > 1 else None
                 ok_addr = ok_sess = False
+                why_addr = why_sess = "not found"
                 if p is not None:
-                    for d in b.defs().get(p[0], []):
-                        if d[0] == "assign" and d[3]["rv"]["k"] == "agg" and d[3]["rv"]["ak"] == "tuple" and len(d[3]["rv"]["ops"]) == 4:
-                            pa = op_place(d[3]["rv"]["ops"][2])
-                            ok_addr = pa is not None and _derives_from_self_field(b, pa[0], "client_addr")
-                            psn = op_place(d[3]["rv"]["ops"][3])
-                            if psn is not None:
-                                _, calls, _ = b.slice_back([psn[0]])
-                                for (_, cc, tt) in calls:
-                                    if cc.name == "Session::new" and len(tt["args"]) == 4:
-                                        want = ["client_session_id", "server_session_id", "server_packet_id", "user"]
-                                        ok_sess = all(op_place(a) is not None and _derives_from_self_field(b, op_place(a)[0], w) for a, w in zip(tt["args"], want))
-                ctx.ob("U3", b.defp, "reply-to-recorded-client", loc(t["sp"]), ok_addr, "replies are addressed to the client address recorded at association creation" if ok_addr else "reply address does not derive from the association's client_addr")
-                ctx.ob("U3", b.defp, "reply-session-from-association", loc(t["sp"]), ok_sess, "reply Session = (association's client id, server id, packet id, user)" if ok_sess else "reply Session is not built from the association's own ids/user")
+                    for d in _agg_defs(b, p[0]):
+                        if d[0] == "assign" and d[3]["rv"]["k"] == "agg" and d[3]["rv"]["ak"] in ("tuple", "adt") and len(d[3]["rv"]["ops"]) >= 3:
+                            ops_ = [op_place(o) for o in d[3]["rv"]["ops"]]
+                            addr_ops = [q for q in ops_ if q is not None and "SocketAddr" in b.local_ty(q[0]) and "Session" not in b.local_ty(q[0])]
+                            sess_ops = [q for q in ops_ if q is not None and "Session<" in b.local_ty(q[0])]
+                            # the client address: the SocketAddr part that is copied out of the association's state (the other one is the
+                            # peer the datagram was received from)
+                            from_self = [q for q in addr_ops if _self_fields_read(b, q[0])]
+                            ok_addr = len(from_self) >= 1
+                            why_addr = f"{len(addr_ops)} address part(s), {len(from_self)} copied from the association's state"
+                            for q in sess_ops:
+                                locs_, calls_, _ = b.slice_back([q[0]])
+                                ctor_args = []
+                                for (_, cc, tt) in calls_:
+                                    if cc.method == "new" and "Session" in (cc.self_def or cc.self_s or "") and len(tt["args"]) >= 3:
+                                        ctor_args = [op_place(a) for a in tt["args"]]
+                                for l_ in locs_:
+                                    for d2 in b.defs().get(l_, []):
+                                        if d2[0] == "assign" and d2[3]["rv"]["k"] == "agg" and d2[3]["rv"].get("ak") == "adt" and "Session" in (d2[3]["rv"].get("def") or "") and len(d2[3]["rv"]["ops"]) >= 3:
+                                            ctor_args = ctor_args or [op_place(o) for o in d2[3]["rv"]["ops"]]
+                                if ctor_args:
+                                    ok_sess = all(a is not None and (_self_fields_read(b, a[0]) or any(_self_fields_read(b, l2) for l2 in b.slice_back([a[0]])[0])) for a in ctor_args)
+                                    why_sess = f"session built from {len(ctor_args)} part(s), all from the association's state: {ok_sess}"
+                ctx.ob("U3", b.defp, "reply-to-recorded-client", loc(t["sp"]), ok_addr, ("replies are addressed to the client address recorded in the association" if ok_addr else "reply address does not derive from the association's recorded client address") + f" ({why_addr})")
+                ctx.ob("U3", b.defp, "reply-session-from-association", loc(t["sp"]), ok_sess, ("reply Session is built from the association's own ids / user" if ok_sess else "reply Session is not built from the association's own ids/user") + f" ({why_sess})")
         # user assigned only behind the filter's accept edge
         filt = [(blk, c, t) for (blk, c, t) in b.calls() if is_filter(c)]
         for (blk, c, t) in b.calls():
@@ -120,11 +137,12 @@ def run(ctx):
         for (blk, c, t) in b.calls():
             if c.method == "send" and "Sender" in c.self_s and len(t["args"]) > 1:
                 p = op_place(t["args"][1])
-                for d in (b.defs().get(p[0], []) if p is not None else []):
-                    if d[0] == "assign" and d[3]["rv"]["k"] == "agg" and d[3]["rv"]["ak"] == "tuple" and len(d[3]["rv"]["ops"]) == 4:
-                        pa = op_place(d[3]["rv"]["ops"][2])
-                        if pa is not None:
-                            addr_fields |= set(_self_fields_read(b, pa[0]))
+                for d in (_agg_defs(b, p[0]) if p is not None else []):
+                    if d[0] == "assign" and d[3]["rv"]["k"] == "agg" and d[3]["rv"]["ak"] in ("tuple", "adt") and len(d[3]["rv"]["ops"]) >= 3:
+                        for o in d[3]["rv"]["ops"]:
+                            pa = op_place(o)
+                            if pa is not None and "SocketAddr" in b.local_ty(pa[0]) and "Session" not in b.local_ty(pa[0]):
+                                addr_fields |= set(_self_fields_read(b, pa[0]))
         if not addr_fields:
             ctx.anchor_lost("U3", "the association field replies are addressed to")
         # the reply address of an association is only ever changed by a datagram that passed the replay filter: an authentic but
@@ -164,7 +182,11 @@ def run(ctx):
                 p = op_place(t["args"][2])
                 root = _copy_root(b, p[0]) if p else None
                 # the binding's source must be the association's channel message (carries a Session), not a socket receive result
-                from_chan = root is not None and "Session<" in b.local_ty(root[0]) and "SocketAddr" in b.local_ty(root[0])
+                # the association's message: a tuple / struct that carries the client address (not the `(usize, SocketAddr)` of a socket receive)
+                rty_ = b.local_ty(root[0]) if root is not None else ""
+                from_chan = root is not None and ("Session<" in rty_ and "SocketAddr" in rty_ or
+                                                  any(it_["k"] == "struct" and re.search(r"\b" + re.escape(last_seg(it_["path"])) + r"\b", rty_) and
+                                                      any("SocketAddr" in ft_ for (_, ft_) in it_["fields"]) and any("Session" in ft_ for (_, ft_) in it_["fields"]) for it_ in prog.items))
                 from_sock = root is not None and "usize" in b.local_ty(root[0]).split("SocketAddr")[0][-12:]
                 ctx.ob("U3", b.defp, "listener-replies-to-association-address", loc(t["sp"]), from_chan and not from_sock, "the listener replies to the address carried in the association's message" if from_chan and not from_sock else "reply address derives from the most recent inbound datagram instead of the association")
 
@@ -196,6 +218,21 @@ def run(ctx):
                f"lookup in {mty[:80]}: {why}: a datagram for the same host on another port is sent to the port of an earlier datagram, and its "
                "answer comes back labelled with the wrong address")
     ctx.note("U6: %d lookups in address-valued maps keyed by part of the address" % len([1 for x in partial_key_caches(prog) if x[5] == "udp"]))
+
+
+def _agg_defs(b, local, depth=0):
+    """definitions of the value held by `local`, looking through plain moves / copies (`let msg = Msg {..}; send(msg)`)"""
+    out = []
+    if depth > 6:
+        return out
+    for d in b.defs().get(local, []):
+        if d[0] == "assign" and d[3]["rv"]["k"] == "use":
+            q = op_place(d[3]["rv"]["op"])
+            if q is not None and not q[1]:
+                out += _agg_defs(b, q[0], depth + 1)
+                continue
+        out.append(d)
+    return out
 
 
 def _copy_root(b, local, depth=0):
